@@ -456,6 +456,33 @@ fn idiom_corpus_panics(_p: &str) -> String {
     format!("{{\"violates\": {}, \"programs\": {}, \"problem\": \"{}\"}}", !bad.is_empty(), programs.len(), bad.chars().take(300).collect::<String>())
 }
 
+/// For every byte value b: the entry decoded at offset 0 of [b, 32 zero bytes] must be of the opcode type the
+/// specification assigns to b (its `Debug` form starts with the type's name).  The table is generated from
+/// vlib/checks/optable.py, which is written from the Yellow Paper, not from the crate.
+fn decoder_table(_p: &str) -> String {
+    const EXPECT: [&str; 256] = ["Stop", "Add", "Mul", "Sub", "Div", "SDiv", "Mod", "SMod", "AddMod", "MulMod", "Exp", "SignExtend", "Invalid", "Invalid", "Invalid", "Invalid", "Lt", "Gt", "SLt", "SGt", "Eq", "IsZero", "And", "Or", "Xor", "Not", "Byte", "Shl", "Shr", "Sar", "Invalid", "Invalid", "Sha3", "Invalid", "Invalid", "Invalid", "Invalid", "Invalid", "Invalid", "Invalid", "Invalid", "Invalid", "Invalid", "Invalid", "Invalid", "Invalid", "Invalid", "Invalid", "Address", "Balance", "Origin", "Caller", "CallValue", "CallDataLoad", "CallDataSize", "CallDataCopy", "CodeSize", "CodeCopy", "GasPrice", "ExtCodeSize", "ExtCodeCopy", "ReturnDataSize", "ReturnDataCopy", "ExtCodeHash", "BlockHash", "CoinBase", "Timestamp", "Number", "Prevrandao", "GasLimit", "ChainId", "SelfBalance", "BaseFee", "Invalid", "Invalid", "Invalid", "Invalid", "Invalid", "Invalid", "Invalid", "Pop", "MLoad", "MStore", "MStore8", "SLoad", "SStore", "Jump", "JumpI", "PC", "MSize", "Gas", "JumpDest", "Invalid", "Invalid", "Invalid", "Push0", "PushN", "PushN", "PushN", "PushN", "PushN", "PushN", "PushN", "PushN", "PushN", "PushN", "PushN", "PushN", "PushN", "PushN", "PushN", "PushN", "PushN", "PushN", "PushN", "PushN", "PushN", "PushN", "PushN", "PushN", "PushN", "PushN", "PushN", "PushN", "PushN", "PushN", "PushN", "PushN", "DupN", "DupN", "DupN", "DupN", "DupN", "DupN", "DupN", "DupN", "DupN", "DupN", "DupN", "DupN", "DupN", "DupN", "DupN", "DupN", "SwapN", "SwapN", "SwapN", "SwapN", "SwapN", "SwapN", "SwapN", "SwapN", "SwapN", "SwapN", "SwapN", "SwapN", "SwapN", "SwapN", "SwapN", "SwapN", "LogN", "LogN", "LogN", "LogN", "LogN", "Invalid", "Invalid", "Invalid", "Invalid", "Invalid", "Invalid", "Invalid", "Invalid", "Invalid", "Invalid", "Invalid", "Invalid", "Invalid", "Invalid", "Invalid", "Invalid", "Invalid", "Invalid", "Invalid", "Invalid", "Invalid", "Invalid", "Invalid", "Invalid", "Invalid", "Invalid", "Invalid", "Invalid", "Invalid", "Invalid", "Invalid", "Invalid", "Invalid", "Invalid", "Invalid", "Invalid", "Invalid", "Invalid", "Invalid", "Invalid", "Invalid", "Invalid", "Invalid", "Invalid", "Invalid", "Invalid", "Invalid", "Invalid", "Invalid", "Invalid", "Invalid", "Invalid", "Invalid", "Invalid", "Invalid", "Invalid", "Invalid", "Invalid", "Invalid", "Invalid", "Invalid", "Invalid", "Invalid", "Invalid", "Invalid", "Invalid", "Invalid", "Invalid", "Invalid", "Invalid", "Invalid", "Invalid", "Invalid", "Invalid", "Invalid", "Create", "Call", "CallCode", "Return", "DelegateCall", "Create2", "Invalid", "Invalid", "Invalid", "Invalid", "StaticCall", "Invalid", "Invalid", "Revert", "Invalid", "SelfDestruct"];
+    let mut bad = Vec::new();
+    for b in 0..=255u8 {
+        let mut code = vec![b];
+        code.extend(std::iter::repeat(0u8).take(32));
+        let s = match InstructionStream::try_from(code.as_slice()) {
+            Ok(s) => s,
+            Err(e) => {
+                bad.push(format!("{b:#04x}: rejected {e:?}").replace('"', "'"));
+                continue;
+            }
+        };
+        let t = s.new_thread(0).expect("thread");
+        let op = t.instruction(0).expect("entry");
+        let dbg = format!("{:?}", op);
+        let name: String = dbg.chars().take_while(|c| c.is_alphanumeric()).collect();
+        if name != EXPECT[b as usize] {
+            bad.push(format!("{b:#04x}: decoded as {name}, the specification says {}", EXPECT[b as usize]));
+        }
+    }
+    format!("{{\"violates\": {}, \"bytes\": 256, \"problems\": \"{}\"}}", !bad.is_empty(), bad.iter().take(6).cloned().collect::<Vec<_>>().join("; "))
+}
+
 fn str_param(json: &str, key: &str) -> Option<String> {
     let k = format!("\"{key}\"");
     let i = json.find(&k)?;
@@ -1281,6 +1308,7 @@ fn main() {
         "fold_variant" => fold_variant(&p),
         "disassemble_roundtrip" => disassemble_roundtrip(&p),
         "disassemble_reference" => disassemble_reference(&p),
+        "decoder_table" => decoder_table(&p),
         "layout_family_sorted" => layout_family_sorted(&p),
         "idiom_corpus_panics" => idiom_corpus_panics(&p),
         "permissive_bad_jump" => permissive_bad_jump(&p),
